@@ -50,8 +50,8 @@ def run (op impl : String) : Ans :=
           | .xc => .close true
           | .xb => .close false
         -- ws: the pipelined bytes sit in bfe's bufio readers (prefixes); tls: they are ordinary first writes
-        let fin := if proto == "ws" then runScript (St.init pc pb false) steps
-                   else runScript (St.init [] [] true) (.send true pc :: .send false pb :: steps)
+        let fin := if proto == "ws" then runScript (St.init pc pb 0) steps
+                   else runScript (St.init [] [] 2) (.send true pc :: .send false pb :: steps)
         let m := render fin.c2b.out fin.b2c.out fin.shut fin.shut
         -- spec oracle
         let expB := pc ++ (sc.map fun | .c b => b | _ => []).flatten
